@@ -7,7 +7,7 @@ import torch
 
 from . import project, algrun
 
-TOL = {"C11": 10.0, "C12": 10.0, "C13": 50.0}     # constants of "a small constant times eps" (DESIGN.md section 4)
+TOL = {"C11": 10.0, "C12": 10.0, "C13": 10.0}     # constants of "a small constant times eps" (DESIGN.md section 4)
 U64 = 2.0 ** -53
 
 
